@@ -243,6 +243,8 @@ class Gen:
             if k == 3:
                 return "(%s * (%s %% 4))" % (e(STR), e(INT))
             if k == 4:
+                if self.p(0.5):
+                    return "%s[%s:%s:%s]" % (e(STR), self.bound(sc, d), self.bound(sc, d), self.stride(sc, d))
                 a, b = r.randint(-4, 4), r.randint(-4, 6)
                 return "%s[%d:%d]" % (e(STR), a, b)
             if k == 5:
@@ -311,6 +313,8 @@ class Gen:
             if k == 2:
                 return "(%s * (%s %% 3))" % (e(LI), e(INT))
             if k == 3:
+                if self.p(0.5):
+                    return "%s[%s:%s:%s]" % (e(LI), self.bound(sc, d), self.bound(sc, d), self.stride(sc, d))
                 return "%s[%s:%s]" % (e(LI), self.ch(["", "1", "-2", "0"]), self.ch(["", "3", "-1", "100"]))
             if k == 4:
                 return "%s[%s:%s:%d]" % (e(LI), self.ch(["", "1", "-1", "5"]), self.ch(["", "0", "-1", "4"]), self.ch([-3, -2, -1, 1, 2]))
@@ -335,7 +339,7 @@ class Gen:
                 ll = e(LLI)
                 return "(%s + [[]])[%s %% (len(%s) + 1)]" % (ll, e(INT), ll)
             if k == 14:
-                return "[x + y for x in %s for y in %s]" % (e(LI), e(LI))
+                return "[x + y for x in %s[:5] for y in %s[:5]]" % (e(LI), e(LI))
             if k == 15:
                 return "[len(s) for s in %s]" % e(LS)
             if k == 16:
@@ -398,6 +402,23 @@ class Gen:
                 return "[[x, x * 2] for x in %s]" % e(LI)
             return "(%s + %s)" % (e(LLI), e(LLI))
         raise ValueError(ty)
+
+    def bound(self, sc, d):
+        """A slice bound: absent, literal, or a run-time value in a small range."""
+        k = self.r.randrange(4)
+        if k == 0:
+            return ""
+        if k == 1:
+            return str(self.r.randint(-5, 6))
+        return "((%s) %% 9 - 4)" % self.expr(sc, INT, d + 1)
+
+    def stride(self, sc, d):
+        k = self.r.randrange(4)
+        if k == 0:
+            return ""
+        if k == 1:
+            return str(self.ch([-3, -2, -1, 1, 2, 3]))
+        return "(((%s) %% 3 + 1) * %s)" % (self.expr(sc, INT, d + 1), self.ch(["1", "-1", "(1 if %s else -1)" % self.expr(sc, BOOL, d + 1)]))
 
     def call(self, sc, f, d):
         """Call expression of Fn f with generated arguments (positional / named mix)."""
@@ -847,10 +868,22 @@ class Gen:
     ]
 
     # ---- program
-    def program(self):
-        """Generate the statement list; returns list of (indent, text)."""
+    def program(self, pre_lines=None, pre_vars=None, pre_fns=None):
+        """Generate the statement list; returns list of (indent, text).
+        pre_lines/pre_vars/pre_fns: statements (e.g. load) that bind frozen, immutable values and pure functions."""
         sc = Scope()
+        self.top_scope = sc
         self.lines = []
+        for l in pre_lines or []:
+            self.emit_line(0, l)
+        for v in pre_vars or []:
+            g = None
+            if v.ty in MUTABLE or v.group is not None:
+                g = self.fresh_group()
+                sc.locked.add(g)  # frozen: never mutated by generated code
+            sc.vars.append(Var(v.name, v.ty, g, const=True))
+        for f in pre_fns or []:
+            sc.fns.append(f)
         self.emit_line(0, "def undefined_fn_arity():")
         self.emit_line(1, "return 0")
         # a few initial variables of every kind so expressions have material
